@@ -30,6 +30,7 @@ def gen_plan(base_seed, i, tier):
     rows = common.pick_rows(rng, n, w)
     if rng.random() < 0.3:
         rows.append(rng.choice(rows))  # duplicate
+    common.maybe_pair(rng, rows)
     K = 3 if tier == "quick" else (6 if len(rows) <= 6 else 4)
     ctxs = []
     for _ in range(K):
@@ -42,6 +43,9 @@ def gen_plan(base_seed, i, tier):
             sim["par_mode"] = "process"
         elif u < 0.25:
             sim["par_mode"] = "inline"
+        if rng.random() < 0.2:
+            cfg["assign"] = {"n_jobs": cfg["n_jobs"]}  # set through the public n_jobs property after construction
+            cfg["ctor_n_jobs"] = rng.choice([1, 2])
         reuse = rng.random() < 0.25
         ctx = {"perm": perm, "config": cfg, "sim": sim, "reuse": reuse}
         if reuse:
@@ -66,6 +70,26 @@ def gen_plan(base_seed, i, tier):
             c["sim"]["fault_seed"] = seed
         plan["fixed_faults"] = True
     return plan
+
+
+def extra_plans(tier, base_seed):
+    """Large MCS batches under epoch-scale clock steps (a machine without RTC syncing from 1970, a clock set
+    back by years): the progress/ETA code reads the wall clock, results must not depend on it."""
+    import json
+    import os
+
+    with open(os.path.join(common.HERE, "corpus", "reactions.json")) as f:
+        items = [it for it in json.load(f) if "mcs-based" in it["tags"] and "declined" not in it["tags"]]
+    items.sort(key=lambda it: (it["t"], it["rsmi"]))
+    rows = [it["rsmi"] for it in items[:56]]
+    plans = []
+    variants = [[[1, 1.76e9]], [[3, -1.5e9]]] if tier == "quick" else [[[1, 1.76e9]], [[3, -1.5e9]], [[0, 1.76e9], [40, 3.0e9]], [[10, 4.0e10]], [[2, 11.0], [5, -11.0]]]
+    for v, steps in enumerate(variants):
+        n = len(rows) if v == 0 else 24
+        plans.append({"property": "C06", "kind": "contexts", "rows": rows[:n], "contexts": [
+            {"perm": list(range(n)), "config": {"n_jobs": 1 if v % 2 == 0 else 4, "batch_size": None, "threshold": 0},
+             "sim": {"sched_seed": base_seed + v, "clock": {"skew0": -1.7e9 if steps[0][1] > 0 else 0.0, "steps": steps}}, "reuse": False}]})
+    return plans
 
 
 def _sum_stats(stats_list):
